@@ -25,7 +25,7 @@ var kwTable = map[string]kwInfo{
 	"list": {"li1", []string{"key", "leaf"}}, "choice": {"ch1", nil}, "case": {"ca1", nil}, "anyxml": {"ax1", nil},
 	"grouping": {"g1", nil}, "uses": {"g1", nil}, "rpc": {"r1", nil}, "input": {"", []string{"leaf"}}, "output": {"", []string{"leaf"}},
 	"notification": {"n1", nil}, "augment": {"/a/b", nil}, "identity": {"id1", nil}, "extension": {"e1", nil},
-	"argument": {"arg1", nil}, "feature": {"f1", nil}, "deviation": {"/a/b", nil}, "deviate": {"add", nil},
+	"argument": {"arg1", nil}, "feature": {"f1", nil}, "deviation": {"/a/b", []string{"deviate"}}, "deviate": {"add", nil},
 	"range": {"1..10", nil}, "length": {"1..10", nil}, "pattern": {"[a-z]+", nil}, "enum": {"en1", nil}, "bit": {"b1", nil},
 	"path": {"/a/b", nil}, "fraction-digits": {"2", nil}, "require-instance": {"true", nil},
 	"default": {"dflt", nil}, "status": {"current", nil}, "units": {"u", nil}, "config": {"true", nil},
@@ -136,7 +136,8 @@ func genYTriples(r *Rng, tier string, n int, emit func(Case)) {
 			}
 		}
 		// unknown keywords: prefixed extension statements are accepted anywhere, unprefixed ones never
-		for _, c := range []string{"ex:foo", "foo", "deviate-add", "unknown"} {
+		// (no extension cardinality is handed to Parse: the statements the package knows by name are extension statements too)
+		for _, c := range []string{"ex:foo", "foo", "deviate-add", "unknown", "configd:help", "opd:help", "configd:validate", "opd:inherit", "opd:on-enter", "configd:error-message"} {
 			text := stmtText(p, "\x00", []string{c + " \"add\";"}, 0)
 			emit(mkCheckCase(text, Case{"ext": []any{p, c}}))
 		}
@@ -244,8 +245,8 @@ var argProbe = map[string][]string{
 	"descschema": {"a", "a/b", "p:a/q:b", "/a", "a//b", "a/", "", "1a"},
 	"augment":  {"/a", "/p:a/b", "a/b", "a", "//a", "/a/", "", "1a", "/1a"},
 	"fracdig":  {"1", "9", "10", "18", "19", "0", "05", "5 ", "+5", "-1", "1.0", "", "100"},
-	"range":    {"1..10", "min..max", "1", "min", "max", "1 | 5..7", "-5..5", "1.5..2.5", "1..2..3", "a..b", "1..", "..2", "", "|", "1|", "1 .. 2", "0x1..2", "+1..2", "1e3", "max..min", "m in..max"},
-	"length":   {"1..10", "min..max", "0", "min", "1 | 5..7", "18446744073709551615", "18446744073709551616", "-1..2", "1.5", "0x10", "010", "1_0", "1..2..3", "", "a"},
+	"range":    {"1..10", "min..max", "1", "min", "max", "1 | 5..7", "-5..5", "1.5..2.5", "1..2..3", "a..b", "1..", "..2", "", "|", "1|", "1 .. 2", "0x1..2", "+1..2", "1e3", "max..min", "m in..max", "1 0..2 0", "1..5|\n7", "1..5 |\r\n7..9", "1\n..\n5", "1\r\n..5", "1..5\r|7", "1\r\n0", "1. .5", "1 . 5", "- 5", "mi n", "5..min", "max..max", "\n1..5\n", "1.\n5"},
+	"length":   {"1..10", "min..max", "0", "min", "1 | 5..7", "18446744073709551615", "18446744073709551616", "-1..2", "1.5", "0x10", "010", "1_0", "1..2..3", "", "a", "1 0", "1..5|\n7", "1\r\n..5", "1\r0", "ma x", "min .. max", "5..min"},
 	"empty":    {""},
 }
 
